@@ -45,13 +45,17 @@ def extract(config="default", repo=REPO, extra_cargo_args=(), extra_rustflags=""
         out = os.path.join(WORK, "facts", f"{config}-{hsh}")
         marker = os.path.join(out, "COMPLETE")
         if os.path.exists(marker):
+            os.utime(marker)
             return out
-        # drop stale fact dirs for this config (disk hygiene)
+        # drop stale fact dirs for this config (disk hygiene): incomplete ones (no extraction can be running, we hold the
+        # lock) and complete ones not used for 30 minutes (a reader of another tree may still be loading a fresher one)
         fd = os.path.join(WORK, "facts")
         if os.path.isdir(fd):
             for d in os.listdir(fd):
                 if d.startswith(config + "-"):
-                    shutil.rmtree(os.path.join(fd, d), ignore_errors=True)
+                    m = os.path.join(fd, d, "COMPLETE")
+                    if not os.path.exists(m) or time.time() - os.path.getmtime(m) > 1800:
+                        shutil.rmtree(os.path.join(fd, d), ignore_errors=True)
         os.makedirs(out, exist_ok=True)
         target = os.path.join(WORK, "target-" + config)
         # cargo must not replay a cached run of the workspace members: remove their fingerprints
